@@ -1,0 +1,28 @@
+//go:build verif
+
+// Contracts for package gsfa, property C10 (comment-only; read by /verif/vcgo, build tag verif).
+// Only what NewEpochFromConfig (package main) calls: the reader constructor and its identity getters.
+package gsfa
+
+// NewGsfaReader opens <dir>/pubkey-to-offset-and-size.index (kind asserted by Open_PubkeyToOffsetAndSize: M2), the linked log
+// and the manifest. File I/O abstracted (noframe). NOTE what is NOT done here: the offsets index carries its own Epoch /
+// RootCid / Network (index.offsets.Meta()); they are compared with nothing - not with the manifest's meta, not by the caller.
+//@ func NewGsfaReader
+//@   mode int
+//@   ensures result1 == nil ==> result0 != nil && fresh(result0) && result0.man != nil
+//@   ensures result1 != nil ==> result0 == nil
+//@   noframe
+
+// `pure`: index.man and the manifest's header are set once by NewGsfaReader; (*GsfaReader).Close closes the offsets index and
+// the linked log but never the manifest, so Meta()/Version() are functions of the receiver for the whole life of the reader.
+//@ func (*GsfaReader) Meta
+//@   mode int
+//@   pure
+//@   requires index.man != nil
+//@   noframe
+
+//@ func (*GsfaReader) Version
+//@   mode int
+//@   pure
+//@   requires index.man != nil
+//@   noframe
